@@ -221,7 +221,8 @@ CLAIMS["C02"] = dict(
         "method a is the one emitted for  a: a 'x' | 'b'  -- for every number of x tokens, every following token and every "
         "sufficient fuel -- the rule returns the left-nested tree of  b x*  and stops after the last x, and refuses any input not "
         "starting with b; the same for INDIRECT recursion  a: c 'x' | 'b' ; c: a  (Proofs/GrowIndirect.v) entered at the leader a "
-        "or at the other member c (instances: those methods are, as rendered text, the methods of the real generator's output). Examples show "
+        "or at the other member c, and for HIDDEN recursion  a: 'q'? a 'x' | 'b'  (Proofs/GrowHidden.v) "
+        "(instances: those methods are, as rendered text, the methods of the real generator's output). Examples show "
         "the hypotheses satisfiable. Tie: K-gen (decorator choice incl. helper rules) and K-run with event traces through growth. On the "
         "implementation: left-recursive families (recursive reference bare/named/grouped/behind lookahead/behind nullable "
         "rule/in optional/in loop; cycles of 2-3 rules entered at any member, one member also self-recursive; helpers inside "
